@@ -1,0 +1,23 @@
+//go:build verif
+// +build verif
+
+/*
+   Verification hooks (build tag "verif"): the agents' unexported task factories, exported for
+   the external verification harness. Not compiled into normal builds.
+*/
+
+package cmd
+
+import (
+	"github.com/bbva/qed/gossip"
+	"github.com/bbva/qed/log"
+)
+
+// VerifAuditorFactory returns the auditor's membership-verification task factory.
+func VerifAuditorFactory() gossip.TaskFactory { return membershipFactory{log.L()} }
+
+// VerifMonitorFactory returns the monitor's consistency-verification task factory.
+func VerifMonitorFactory() gossip.TaskFactory { return incrementalFactory{log.L()} }
+
+// VerifPublisherFactory returns the publisher's task factory.
+func VerifPublisherFactory() gossip.TaskFactory { return publisherFactory{log.L()} }
